@@ -126,7 +126,7 @@ theorem generic_finish_kw (f : Nat) (parent : YKw) (cx c1 c2 c' : XCtx) (k : Byt
     (ek : parseKids f (.kw k) c2 = .ok (c', kidsN)) :
     parseGeneric (f + 1) parent cx =
       .ok (c', .mk (qualName cx.pfx cx.name) (.kw k) arg (if arg.isSome then LYS_DOUBLEQUOTED else 0) kidsN) := by
-  simp only [parseGeneric, hmk, hh, Except.map, mkwToYKw]
+  simp only [parseGeneric, hmk, remapArg_kw, hh, Except.map, mkwToYKw]
   simp only [hcond, if_true, e2, ek]
   simp
 
@@ -136,7 +136,7 @@ theorem generic_finish_ext (f : Nat) (parent : YKw) (cx c1 c2 c' : XCtx) (kidsN 
     (hcond : (c1.status != .elemContent || c1.wsOnly) = true) (e2 : ctxNext c1 = .ok c2)
     (ek : parseKids f .ext c2 = .ok (c', kidsN)) :
     parseGeneric (f + 1) parent cx = .ok (c', .mk (qualName cx.pfx cx.name) .ext none 0 kidsN) := by
-  simp only [parseGeneric, hmk, e1, hga, Except.map, mkwToYKw]
+  simp only [parseGeneric, hmk, remapArg_ext, e1, hga, Except.map, mkwToYKw]
   simp only [hcond, if_true, e2, ek]
   simp
 
